@@ -74,6 +74,44 @@ def rule_objkey(ctx, f):
                   "decrypt to garbage" % (which, sorted(names), sorted(consts)), t["span"], detail="&digest[..(n + 5).min(16)]")
 
 
+def rule_salts(ctx, f):
+    ctx.rule("C06-SIB-salts", "AES-256 handlers: the validation salt (bytes 32..40) and the key salt (bytes 40..48) of /U and of /O are each used as often "
+             "as their sibling of the other password (the user and owner branches are mirror images)")
+    b = f.body("crypt::Decoder::from_password")
+    if b is None:
+        ctx.lost("C06-SIB-salts", "crypt::Decoder::from_password")
+        return
+    from flow import Flow
+    fl = Flow(b)
+    # locals holding &x[32..40] / &x[40..48]
+    salt = {}       # local -> (start, end)
+    for bi, t in F.calls(b):
+        if last_seg(F.callee_name(t)) == "index" and len(t["args"]) == 2 and "Range<usize>" in t["arg_tys"][1]["s"]:
+            rl = F.op_local(t["args"][1])
+            for a in fl.origins(rl, passthrough=()) if rl is not None else []:
+                if a[0] == "agg":
+                    cs = [F.const_int(o) for o in a[3][2]]
+                    if cs in ([32, 40], [40, 48]):
+                        salt[(bi, tuple(cs))] = t["dest"][0]
+    ctx.floor("C06-SIB-salts", len(salt), 4, "salt slices of /U and /O (validation and key)")
+    uses = {}
+    for (bi, rng), dest in salt.items():
+        # all locals that are copies / reborrows of the slice
+        n = 0
+        for cbi, ct in F.calls(b):
+            if last_seg(F.callee_name(ct)) in ("update", "revision_6_kdf", "chain_update"):
+                for a in ct["args"]:
+                    l = F.op_local(a)
+                    if l is not None and any(x[0] == "call" and x[2] == bi and last_seg(x[1]) == "index" for x in fl.origins(l)):
+                        n += 1
+        uses.setdefault(rng, []).append(n)
+    for rng, ns in sorted(uses.items()):
+        what = "validation salt" if rng == (32, 40) else "key salt"
+        ctx.check(len(ns) == 2 and ns[0] == ns[1] and ns[0] >= 2, "C06-SIB-salts", "from_password#%s" % what.replace(" ", "-"),
+                  "the %s of /U and of /O are used %s times: one password's branch hashes the other kind of salt (the password is accepted but the file key "
+                  "comes out wrong, or the reverse)" % (what, ns), b["span"], detail="%s used %s times each" % (what, ns))
+
+
 def rule_order(ctx, f):
     ctx.rule("C06-G1", "in the stream decoder the decrypt call is applied once to the raw backend range and dominates the "
              "first filter application")
@@ -459,6 +497,7 @@ def run(ctx):
     ctx.count("bodies", len(f.bodies))
     rule_keylen(ctx, f)
     rule_objkey(ctx, f)
+    rule_salts(ctx, f)
     rule_order(ctx, f)
     rule_exempt(ctx, f)
     rule_identity(ctx, f)
